@@ -7,4 +7,4 @@ from vlib import auth
 
 def run(ctx):
     auth.run_families(ctx, "c08", auth.FAMILIES_PL)
-    auth.record_and_validate(ctx, 4000 if ctx.tier == "quick" else 60000)
+    auth.record_and_validate(ctx, 16000 if ctx.tier == "quick" else 60000)
